@@ -90,6 +90,8 @@ func ruleHashCanonical(c *Ctx) {
 				c.OK(key, c.P.Pos(as.Pos()), v.Name()+" is computed from the node's own encoding of the value")
 			case fromParam && canon:
 				c.OK(key, c.P.Pos(as.Pos()), v.Name()+" is computed from received bytes, and the length decoder rejects non-minimal encodings")
+			case fromParam && rel == "pkg/core/transaction" && receivedBytesReencoded(c):
+				c.OK(key, c.P.Pos(as.Pos()), v.Name()+" is computed from received bytes that the only entry point handing bytes in compares with its own re-encoding of the decoded transaction (any other encoding of the same content is refused)")
 			case fromParam:
 				c.Fail(key, c.P.Pos(as.Pos()), fmt.Sprintf("%s caches the %s of the RECEIVED bytes (%s) while io.BinReader.ReadVarUint (%s) accepts non-minimal length prefixes: the same content gets another identity than its canonical re-encoding", FuncKey(fd.Obj), v.Name(), types.ExprString(arg), canonPos))
 			default:
@@ -99,6 +101,104 @@ func ruleHashCanonical(c *Ctx) {
 		})
 	}
 	c.Floor("identity cache computations", n, 5)
+}
+
+// receivedBytesReencoded: the functions of package transaction that hand received bytes to the hashing decoder (a
+// non-nil buffer argument of decodeBinaryNoSize) re-encode what they decoded into a writer that compares it with the
+// received bytes, and return an error under a condition that mentions that writer. That makes the received bytes the
+// canonical encoding by construction - non-minimal length prefixes, uncompressed keys and odd booleans included.
+func receivedBytesReencoded(c *Ctx) bool {
+	pk := c.P.Pkg("pkg/core/transaction")
+	if pk == nil {
+		return false
+	}
+	info := pk.TypesInfo
+	entries, good := 0, 0
+	for _, fd := range c.P.AllFuncDecls() {
+		if fd.Pkg != pk || fd.Decl.Body == nil {
+			continue
+		}
+		hands := false
+		ast.Inspect(fd.Decl.Body, func(x ast.Node) bool {
+			call, ok := x.(*ast.CallExpr)
+			if !ok || len(call.Args) != 2 {
+				return true
+			}
+			if se, ok := ast.Unparen(call.Fun).(*ast.SelectorExpr); ok && se.Sel.Name == "decodeBinaryNoSize" && !isNilIdent(info, call.Args[1]) {
+				hands = true
+			}
+			return true
+		})
+		if !hands || fd.Decl.Name.Name == "decodeBinaryNoSize" {
+			continue
+		}
+		entries++
+		// a local of a package type whose Write method compares with bytes.Equal/bytes.Compare
+		var cmp types.Object
+		ast.Inspect(fd.Decl.Body, func(x ast.Node) bool {
+			as, ok := x.(*ast.AssignStmt)
+			if !ok || len(as.Lhs) != 1 || len(as.Rhs) != 1 {
+				return true
+			}
+			cl, ok := ast.Unparen(as.Rhs[0]).(*ast.CompositeLit)
+			if !ok {
+				return true
+			}
+			nt, ok := info.TypeOf(cl).(*types.Named)
+			if !ok || nt.Obj().Pkg() != pk.Types {
+				return true
+			}
+			wd := c.P.Func("pkg/core/transaction", nt.Obj().Name(), "Write")
+			if wd == nil || wd.Decl.Body == nil {
+				return true
+			}
+			compares := false
+			ast.Inspect(wd.Decl.Body, func(y ast.Node) bool {
+				if call, ok := y.(*ast.CallExpr); ok {
+					if fn := types.ExprString(call.Fun); fn == "bytes.Equal" || fn == "bytes.Compare" {
+						compares = true
+					}
+				}
+				return true
+			})
+			if compares {
+				if id, ok := as.Lhs[0].(*ast.Ident); ok {
+					cmp = info.ObjectOf(id)
+				}
+			}
+			return true
+		})
+		if cmp == nil {
+			continue
+		}
+		encodes, refuses := false, false
+		ast.Inspect(fd.Decl.Body, func(x ast.Node) bool {
+			switch y := x.(type) {
+			case *ast.CallExpr:
+				if se, ok := ast.Unparen(y.Fun).(*ast.SelectorExpr); ok && se.Sel.Name == "EncodeBinary" {
+					encodes = true
+				}
+			case *ast.IfStmt:
+				mentions := false
+				ast.Inspect(y.Cond, func(z ast.Node) bool {
+					if id, ok := z.(*ast.Ident); ok && info.ObjectOf(id) == cmp {
+						mentions = true
+					}
+					return true
+				})
+				if mentions && len(y.Body.List) > 0 {
+					if rs, ok := y.Body.List[len(y.Body.List)-1].(*ast.ReturnStmt); ok && len(rs.Results) > 0 && !isNilIdent(info, rs.Results[len(rs.Results)-1]) {
+						refuses = true
+					}
+				}
+			}
+			return true
+		})
+		if encodes && refuses {
+			good++
+		}
+	}
+	return entries > 0 && entries == good
 }
 
 // ---------------------------------------------------------------------------
